@@ -295,6 +295,19 @@ pub fn run(args: &Args) -> ! {
             }
         }
     }
+    // several rules whose glob ends in the same literal extension behind a
+    // wildcard (served together by the required-extension matcher): ordered
+    // pairs with every negation pattern
+    {
+        let pool = ["a*.b", "?.b", "[a].b", "*a.b", "/a*.b", "a/?.b", "a?.b", "A*.b"];
+        for a in pool {
+            for b in pool {
+                for (na, nb) in [("", ""), ("!", ""), ("", "!")] {
+                    cases.push(Case { root: format!("{}{}\n{}{}\n", na, a, nb, b), nested: None, icase: false, ndir: "a" });
+                }
+            }
+        }
+    }
     // `dir/*` style rules (a literal prefix followed by one wildcard component)
     // with a later re-include of something below: the wildcard must not reach
     // further down than one component
@@ -447,7 +460,7 @@ pub fn run(args: &Args) -> ! {
     ev.set(
         "rule",
         format!(
-            "tree: 156 files (four of them with names ending in a blank or containing a backslash) over names {{ab,a.b,.a,a-b,a*,[a],a?,c,a,b,A,a.}} in directories {{.,a,b,a.,A}} x {{.,a,b}} plus d/{{a,b}}/{{a,b}}/{{a,b}}. Ignore-file contents: every single line that is a token string of length <= {} over {:?}; ordered pairs of lines (length <= 2 each{}); a root line with a nested a/.gitignore line, and with a nested d/.gitignore or d/a/.gitignore line; case-insensitive variants; trailing blanks, escaped blanks, comments; a byte-order mark at the start of the root and the nested file; every ordered pair (with each negation pattern) and ignore / re-include / ignore triples over the 12 lines **/x/y and **/x/y/z with x,y,z in {{a,b}} (several multi-component literal suffixes in one file); nine `dir/*` rules each followed by nine re-includes of something further down. Oracle: git {} (`git ls-files -o --exclude-standard`) in a scratch repository per shard. Observation: the set of files the real ignore::Walk yields with only .gitignore active (with a nested ignore file: in directory order and with the entries of every directory sorted by name, ascending and descending — what is ignored must not depend on the order of the visit). Lines containing '//' or a backslash before '/' are skipped (no specification). distinct_nontrivial = contents for which git ignores at least one file.",
+            "tree: 156 files (four of them with names ending in a blank or containing a backslash) over names {{ab,a.b,.a,a-b,a*,[a],a?,c,a,b,A,a.}} in directories {{.,a,b,a.,A}} x {{.,a,b}} plus d/{{a,b}}/{{a,b}}/{{a,b}}. Ignore-file contents: every single line that is a token string of length <= {} over {:?}; ordered pairs of lines (length <= 2 each{}); a root line with a nested a/.gitignore line, and with a nested d/.gitignore or d/a/.gitignore line; case-insensitive variants; trailing blanks, escaped blanks, comments; a byte-order mark at the start of the root and the nested file; every ordered pair (with each negation pattern) and ignore / re-include / ignore triples over the 12 lines **/x/y and **/x/y/z with x,y,z in {{a,b}} (several multi-component literal suffixes in one file); every ordered pair (with each negation pattern) over eight rules ending in the same literal extension behind a wildcard; nine `dir/*` rules each followed by nine re-includes of something further down. Oracle: git {} (`git ls-files -o --exclude-standard`) in a scratch repository per shard. Observation: the set of files the real ignore::Walk yields with only .gitignore active (with a nested ignore file: in directory order and with the entries of every directory sorted by name, ascending and descending — what is ignored must not depend on the order of the visit). Lines containing '//' or a backslash before '/' are skipped (no specification). distinct_nontrivial = contents for which git ignores at least one file.",
             tier.pick(4, 5), TOKENS, if tier == Tier::Quick { ", every 2nd line" } else { "" },
             String::from_utf8_lossy(&Command::new("git").arg("--version").output().map(|o| o.stdout).unwrap_or_default()).trim()
         ),
